@@ -7,7 +7,6 @@
 use std::{
     collections::{BTreeMap, BTreeSet, HashMap},
     panic::AssertUnwindSafe,
-    rc::Rc,
     task::{Context, Poll},
 };
 
@@ -135,8 +134,6 @@ struct Built {
     wire: Vec<u8>,
     /// for multipart: offset in `wire` of the first byte that exceeds the limit (if any)
     mp_cross: Option<usize>,
-    /// is the decoded body syntactically acceptable for the extractor's target type?
-    well_formed: bool,
 }
 
 fn body_for(ext: Ext, len: usize) -> (Vec<u8>, bool) {
@@ -171,10 +168,10 @@ fn body_for(ext: Ext, len: usize) -> (Vec<u8>, bool) {
 }
 
 fn build(case: &Case12) -> Built {
-    let (body, well_formed) = body_for(case.ext, case.len);
+    let (body, _well_formed) = body_for(case.ext, case.len);
     if !case.ext.is_mp() {
         let wire = case.coding.encode(&body);
-        return Built { body, wire, mp_cross: None, well_formed };
+        return Built { body, wire, mp_cross: None };
     }
     // multipart envelope
     let mut w = Vec::new();
@@ -199,7 +196,7 @@ fn build(case: &Case12) -> Built {
         w.extend_from_slice(b"\r\n");
     }
     w.extend_from_slice(format!("--{MP_BOUNDARY}--\r\n").as_bytes());
-    Built { body, wire: w, mp_cross: cross, well_formed }
+    Built { body, wire: w, mp_cross: cross }
 }
 
 fn cl_value(case: &Case12, wire_len: usize) -> Option<usize> {
@@ -1033,17 +1030,21 @@ fn judge_groups(cases: &[Case12], obs: &[Obs12]) -> Vec<Violation> {
 // ---------------------------------------------------------------------------------------------
 // entry points
 
-fn run_all(cases: &[Case12]) -> Vec<Obs12> {
+fn run_capped(cases: &[Case12], deadline: Option<std::time::Instant>) -> Vec<Option<Obs12>> {
     let order = case_order(cases.len());
-    let res = run_pool::<Obs12>(cases.len(), &order, |feed| {
+    run_pool::<Obs12>(cases.len(), &order, deadline, |feed| {
         actix_rt::System::new().block_on(async {
             while let Some(i) = feed.next() {
                 let o = run_case(&cases[i]).await;
                 feed.put(i, o);
             }
         });
-    });
-    res.into_iter()
+    })
+}
+
+fn run_all(cases: &[Case12]) -> Vec<Obs12> {
+    run_capped(cases, None)
+        .into_iter()
         .enumerate()
         .map(|(i, o)| o.unwrap_or_else(|| mc_core::machinery(format!("case {i} was not executed"))))
         .collect()
@@ -1051,11 +1052,30 @@ fn run_all(cases: &[Case12]) -> Vec<Obs12> {
 
 pub fn main(tier: &str, wall_cap: Option<u64>) -> i32 {
     let t0 = std::time::Instant::now();
-    let _ = wall_cap;
-    let cases = enumerate(tier);
-    eprintln!("C12: {} cases enumerated ({:.1}s)", cases.len(), t0.elapsed().as_secs_f64());
-    let obs = run_all(&cases);
-    eprintln!("C12: all cases executed ({:.1}s)", t0.elapsed().as_secs_f64());
+    let cap_s = wall_cap.unwrap_or(if tier == "thorough" { 1500 } else { 50 });
+    let all_cases = enumerate(tier);
+    let enumerated = all_cases.len();
+    eprintln!("C12: {} cases enumerated ({:.1}s)", enumerated, t0.elapsed().as_secs_f64());
+    let raw = run_capped(&all_cases, Some(t0 + std::time::Duration::from_secs(cap_s)));
+    // wall cap: keep what was executed, say so
+    let mut enumerated_per_ext: BTreeMap<&'static str, u64> = BTreeMap::new();
+    for c in &all_cases {
+        *enumerated_per_ext.entry(c.ext.name()).or_default() += 1;
+    }
+    let mut cases = Vec::with_capacity(enumerated);
+    let mut obs = Vec::with_capacity(enumerated);
+    for (c, o) in all_cases.into_iter().zip(raw) {
+        if let Some(o) = o {
+            cases.push(c);
+            obs.push(o);
+        }
+    }
+    let capped = cases.len() < enumerated;
+    if cases.is_empty() {
+        eprintln!("MACHINERY: no case was executed within the wall cap");
+        return 2;
+    }
+    eprintln!("C12: {} of {} cases executed ({:.1}s){}", cases.len(), enumerated, t0.elapsed().as_secs_f64(), if capped { " — WALL CAP FIRED" } else { "" });
 
     // determinism: the first 64 cases and every 997th case again, identical observations required
     let mut again_idx: Vec<usize> = (0..cases.len().min(64)).collect();
@@ -1123,8 +1143,11 @@ pub fn main(tier: &str, wall_cap: Option<u64>) -> i32 {
         .set("distinct_nontrivial", distinct.len() as u64)
         .set("rule", "full cartesian product extractor x limit x decoded length {limit-1, limit, limit+1, 4*limit, 64*limit} x chunking (all 2^(n-1) compositions for short bodies; whole / 1-byte / every cut and two-cut split around the limit boundary / fixed-size otherwise) x Pending-between-chunks x Content-Length {absent, true, lie small, lie +1, lie over limit} x coding, each run through the real extractor on a counting source. distinct_nontrivial = number of distinct (extractor, limit, length-class, chunking-shape, outcome-class) tuples among cases whose body arrived in >= 2 chunks")
         .set("samples", samples)
-        .set("exhaustive", true)
-        .set("capped", false)
+        .set("exhaustive", !capped)
+        .set("capped", capped)
+        .set("enumerated", enumerated as u64)
+        .set("enumerated_per_extractor", json!(enumerated_per_ext))
+        .set("cap_note", if capped { "wall cap fired: cases are executed in enumeration order (extractor-major) unless VERIF_SEED permutes it; an extractor is fully covered iff cases_per_extractor == enumerated_per_extractor; clause (c) was evaluated on the executed cases only" } else { "the whole enumerated product was executed" })
         .set("multi_chunk_cases", multi_chunk)
         .set("coded_cases_reaching_blocking_pool_path", blocking_path)
         .set("outcome_histogram", json!(outcome_hist))
@@ -1198,6 +1221,3 @@ pub fn replay(v: &serde_json::Value) -> i32 {
         _ => mc_core::machinery("replay file has no replay.kind"),
     }
 }
-
-#[allow(dead_code)]
-fn _unused(_: Rc<()>) {}
